@@ -35,6 +35,14 @@ pub fn k_of(name: &str) -> usize {
         "Kmer16v" => 16,
         "Kmer32v" => 32,
         "Kmer64v" => 64,
+        // VarIntKmer whose storage integer is (much) wider than 2K bits (user-declared)
+        "Kmer6w" => 6,
+        "Kmer12w" => 12,
+        "Kmer20w" => 20,
+        // k-mer types implemented outside the crate (simcore::userkmer)
+        "Kmer7u" => 7,
+        "Kmer33u" => 33,
+        "Kmer80u" => 80,
         _ => panic!("unknown k-mer type {}", name),
     }
 }
@@ -57,6 +65,10 @@ pub struct GraphSpec {
     /// provenance: the BaseGraph is serialised (serde_json) and read back before it is finished
     #[serde(default)]
     pub via_serde: bool,
+    /// storage layout: when > 0 the node sequences are stored with up to this many unused bases
+    /// between them (rebuilt through the store's public fields)
+    #[serde(default)]
+    pub store_gap: usize,
 }
 
 /// Free-form node set: random substrings of the reads, terminal k-mers distinct per side.
@@ -118,6 +130,7 @@ pub fn gen_graph_spec(rng: &mut Rng, ktypes: &[&str], max_reads: usize, max_len:
         direct_nodes: Vec::new(),
         combine_parts: if rng.chance(1, 4) { rng.range(2, 5) } else { 0 },
         via_serde: rng.chance(1, 8),
+        store_gap: if rng.chance(1, 8) { *rng.pick(&[1usize, 2, 3, 5, 31, 32, 33, 64, 70]) } else { 0 },
     }
 }
 
@@ -153,6 +166,16 @@ pub fn shrink_graph_spec(g: &GraphSpec) -> Vec<GraphSpec> {
         let mut x = g.clone();
         x.via_serde = false;
         out.push(x);
+    }
+    if g.store_gap > 0 {
+        let mut x = g.clone();
+        x.store_gap = 0;
+        out.push(x);
+        if g.store_gap > 1 {
+            let mut y = g.clone();
+            y.store_gap = 1;
+            out.push(y);
+        }
     }
     if g.combine_parts >= 2 {
         let mut x = g.clone();
